@@ -134,11 +134,18 @@ def numeral_value(text):
 
 
 def _scan_numeral(src, i):
-    """Greedy numeral run as llex.c's read_numeral takes it (alnum, '_', '.', exponent sign)."""
+    """The numeral run as Lua 5.2's llex.c read_numeral takes it: after the first digit (and an optional 0x), any
+    run of hexadecimal digits and '.', where an exponent marker (e/E, or p/P after 0x) may be followed by a sign.
+    The run ends before any other character - so `1then` is the number 1 and the keyword then, while `1else` takes
+    `1e` (an incomplete exponent) and is malformed.  PICO-8's 0b literals are not in llex.c; for them the run is
+    taken greedily over letters, digits and '.', so that anything unusual is malformed rather than guessed at."""
     n = len(src)
     j = i
     hexmode = src[i] == 0x30 and i + 1 < n and src[i + 1] in b'xX'
     binmode = src[i] == 0x30 and i + 1 < n and src[i + 1] in b'bB'
+    if hexmode:
+        j = i + 2
+    expo = b'pP' if hexmode else b'eE'
     while j < n:
         c = src[j]
         if c == 0x2e and j + 1 < n and src[j + 1] == 0x2e:
@@ -146,11 +153,18 @@ def _scan_numeral(src, i):
             # numeral before a concatenation operator.  Plain Lua would call this a malformed number; either way a
             # following ".." is never part of the numeral's value.
             break
-        if is_name_char(c) and c < 0x80 or c == 0x2e:
+        if binmode:
+            if is_name_char(c) and c < 0x80 or c == 0x2e:
+                j += 1
+                continue
+            break
+        if c in expo:
             j += 1
-            if not binmode and ((not hexmode and c in b'eE') or (hexmode and c in b'pP')):
-                if j < n and src[j] in b'+-':
-                    j += 1
+            if j < n and src[j] in b'+-':
+                j += 1
+            continue
+        if c in _HEX or c == 0x2e:
+            j += 1
             continue
         break
     return j
